@@ -93,6 +93,12 @@ func (dts *DataTypeService) Get(key []byte) ([]byte, error) {
 	return encValue[index:], nil
 }
 
+// 判断 String 类型的编码 value 是否已过期
+func stringExpired(encValue []byte) bool {
+	expire, _ := binary.Varint(encValue[1:])
+	return expire > 0 && expire <= time.Now().UnixNano()
+}
+
 // ========================= Hash 数据类型 ========================
 
 func (dts *DataTypeService) HSet(key, field, value []byte) (bool, error) {
@@ -204,14 +210,21 @@ func (dts *DataTypeService) findMetadata(key []byte, dt dataType) (*metadata, er
 	} else {
 		// 判断数据类型是否正确
 		// 必须先于解码: 类型不符时其余字节并非元数据编码 (如 String 的原始 value), 解码可能越界
-		if len(metaBuf) == 0 || metaBuf[0] != dt {
+		if len(metaBuf) == 0 {
 			return nil, ErrWrongTypeOperation
 		}
-		// key 存在, 进行解码
-		meta = decodeMetadata(metaBuf)
-		// 判断是否过期
-		if meta.expire != 0 && meta.expire <= time.Now().UnixNano() {
-			exist = false // 过期仍视为不存在
+		if metaBuf[0] == String && stringExpired(metaBuf) {
+			// 已过期的 String 视为不存在, 而非类型不符
+			exist = false
+		} else if metaBuf[0] != dt {
+			return nil, ErrWrongTypeOperation
+		} else {
+			// key 存在, 进行解码
+			meta = decodeMetadata(metaBuf)
+			// 判断是否过期
+			if meta.expire != 0 && meta.expire <= time.Now().UnixNano() {
+				exist = false // 过期仍视为不存在
+			}
 		}
 	}
 
